@@ -325,3 +325,8 @@ def line_col(buf, off):
     line = 1 + before.count(b"\n")
     last = before.rfind(b"\n")
     return line, off - last
+
+
+def crash_class(obs):
+    m = re.search(r"(runtime error: [a-z -]+|AddressSanitizer: [A-Za-z-]+|LeakSanitizer|TIMEOUT|rc=-?\d+)", obs)
+    return (m.group(1) if m else "crash").replace(" ", "-")[:60]
